@@ -1417,6 +1417,7 @@ func (e *bEngine) verify(caseSpec string) {
 	e.loopAbs = len(con.Raw["loopabs"]) > 0
 	e.safety = len(con.Raw["safety"]) > 0
 	e.nilable = len(con.Raw["nilable"]) > 0
+	e.nilsafe = len(con.Raw["nilsafe"]) > 0
 	e.allocMax = pow2(32)
 	for _, s := range con.Raw["safety"] {
 		// safety allocmax=<n>: the largest element count a single make may be asked for
